@@ -435,13 +435,13 @@ RGX_ASM = ["codec entry points replaced by stubs returning any result their inte
 RGXB = "worker count 1..2, output slots 3..6, counters / queue sizes / ghost in-flight counts arbitrary subject to INV; one task execution with re-havoc at every lock release"
 for _e, _w in (("emit", ["emit_enabled", "emit_needs_another_buffer", "emit_on_reserved_slot"]), ("reorder", ["reorder_enabled", "block_written", "bogus_block_dropped"]),
                ("parse", ["parse_enabled", "parser_finds_block", "parser_needs_input", "parser_finishes"]),
-               ("retrieve", ["retrieve_enabled", "retrieve_needs_input", "refuted_candidate_aborted"]), ("scan", ["scan_enabled", "candidate_reported"]),
+               ("retrieve", ["retrieve_enabled", "retrieve_needs_input", "refuted_candidate_aborted"]), ("scan", ["scan_enabled", "candidate_reported", "unord_q_filled_to_the_reservation_bound"]),
                ("write_complete", ["write_completes"]), ("terminate", ["terminates"])):
     add("rgx_" + _e, "h_expand_rg.c", "h_rgx_" + _e, {"C11": "quick", "C13": "quick", "C10": "quick"} if _e in ("retrieve", "emit", "scan", "parse", "reorder") else {"C11": "quick", "C13": "quick"}, cbmc=["--unwind", "10"], object_bits=10, backend="kissat", timeout=1500, mem_gb=6,
         functions=["src/expand.c:do_%s / can_%s" % (_e, _e) if _e not in ("write_complete", "terminate") else "src/expand.c:on_write_complete" if _e == "write_complete" else "src/expand.c:can_terminate",
                    "src/expand.c:attach", "src/expand.c:detach", "src/expand.c:advance", "src/expand.c:init", "src/process.h:queue macros"],
-        witnesses=_w, bounds=RGXB, assumptions=RGX_ASM,
-        outside=["capacity bounds of unord_q, order_q, scan_q and input_q (need a relational invariant over speculative jobs); liveness of the decompressor"])
+        witnesses=_w, bounds=RGXB, assumptions=RGX_ASM + (["J (argued in DESIGN.md, not decided): each record in unord_q is backed by a distinct work unit or output slot held by a speculative job, so at most workers+out_slots-4 records wait when a scan starts; decided: the capacity the real init() allocates holds the record the real do_scan() adds then"] if _e == "scan" else []),
+        outside=["capacity bounds of order_q, scan_q and input_q, and the relational invariant J behind the unord_q bound (speculative jobs); liveness of the decompressor"])
 
 # ===== keep this section LAST: it derives obligations from everything registered above =====
 # ------------------------------------------------------------------------------- C08: the same harnesses with CBMC's UB checks on
